@@ -100,13 +100,16 @@ pub struct Gen<'a> {
     pub max_nested: usize,
     /// top-level ORDER BY may use variables that are not projected (C01 judges those)
     pub hidden_order_keys: bool,
+    /// empty groups, empty UNION branches and VALUES without rows (off for large datasets: the
+    /// unit solution of an empty branch turns the joins around it into cross products)
+    pub allow_empty: bool,
 }
 
 const POOL: [&str; 5] = ["a", "b", "c", "d", "e"];
 
 impl<'a> Gen<'a> {
     pub fn new(r: &'a mut Rng, ds: &Dataset, n_ent: usize, n_pred: usize, n_num: usize) -> Gen<'a> {
-        Gen { r, n_ent, n_pred, n_num, graphs: ds.graphs.iter().cloned().collect(), features: BTreeSet::new(), fresh: 0, max_depth: 3, allow_edge: true, max_top: 4, max_nested: 3, hidden_order_keys: false }
+        Gen { r, n_ent, n_pred, n_num, graphs: ds.graphs.iter().cloned().collect(), features: BTreeSet::new(), fresh: 0, max_depth: 3, allow_edge: true, max_top: 4, max_nested: 3, hidden_order_keys: false, allow_empty: true }
     }
 
     fn fresh(&mut self, p: &str) -> String {
@@ -378,7 +381,7 @@ impl<'a> Gen<'a> {
                     let mut scs: Vec<Scope> = vec![];
                     let dup = self.r.chance(1, 6);
                     for b in 0..nb {
-                        if b > 0 && !dup && self.r.chance(1, 12) {
+                        if b > 0 && !dup && self.allow_empty && self.r.chance(1, 12) {
                             // an empty branch: the unit solution
                             bs.push(vec![]);
                             scs.push(Scope::new());
@@ -398,7 +401,7 @@ impl<'a> Gen<'a> {
                     elems.push(P::Union(bs));
                 }
                 2 => {
-                    let (g, s) = if self.r.chance(1, 12) { (vec![], Scope::new()) } else { self.gen_group(depth + 1, false) };
+                    let (g, s) = if self.allow_empty && self.r.chance(1, 12) { (vec![], Scope::new()) } else { self.gen_group(depth + 1, false) };
                     join_scope(&mut sc, &s);
                     elems.push(P::Group(g));
                 }
@@ -435,7 +438,7 @@ impl<'a> Gen<'a> {
                         self.features.insert("graph_variable_bound_by_values".into());
                     }
                     let kinds: Vec<Kind> = vars.iter().map(|v| if v == "g" { Kind::Graph } else { sc.get(v).map(|i| i.kind).unwrap_or(if self.r.coin() { Kind::Ent } else { Kind::Num }) }).collect();
-                    let nr = if self.r.chance(1, 15) { 0 } else { self.r.range(1, 3) };
+                    let nr = if self.allow_empty && self.r.chance(1, 15) { 0 } else { self.r.range(1, 3) };
                     let mut rows = vec![];
                     for _ in 0..nr {
                         let mut row = vec![];
